@@ -317,9 +317,11 @@ func TModeStubs(st map[string]StubFn) {
 			Instances:  map[*ast.Ident]types.Instance{},
 		}
 		var terrs []packages.Error
+		var typeErrs []types.Error
 		tc := &types.Config{Importer: mapImporter(si.typPkgs), Error: func(err error) {
-			// (as go/packages reports them: position and message apart)
+			// (as go/packages reports them: position and message apart; the structured errors in TypeErrors)
 			if te, ok := err.(types.Error); ok {
+				typeErrs = append(typeErrs, te)
 				terrs = append(terrs, packages.Error{Pos: te.Fset.Position(te.Pos).String(), Msg: te.Msg, Kind: packages.TypeError})
 				return
 			}
@@ -327,7 +329,7 @@ func TModeStubs(st map[string]StubFn) {
 		}}
 		tpkg, _ := tc.Check(si.pkgPath, fset, files, info)
 		pkg := &packages.Package{ID: si.pkgPath, Name: si.name, PkgPath: si.pkgPath, Fset: fset, Syntax: files,
-			Types: tpkg, TypesInfo: info, Imports: si.imports, Errors: append(perrs, terrs...), IllTyped: len(terrs) > 0}
+			Types: tpkg, TypesInfo: info, Imports: si.imports, Errors: append(perrs, terrs...), TypeErrors: typeErrs, IllTyped: len(terrs) > 0}
 		return tuple{nativeV{reflect.ValueOf([]*packages.Package{pkg})}, iface{}}
 	}
 	st["go/parser.ParseFile"] = func(r *Run, fr *frame, fn *ssa.Function, a []value) value {
